@@ -278,6 +278,9 @@ impl Check for C17 {
             .prop_map(|(discovery_ms, inflight, late, late_gap_us, workers, busy)| Case { discovery_ms, inflight, late, late_gap_us, workers, busy })
             .boxed()
     }
+    fn max_shrink_iters(&self) -> u32 {
+        40
+    }
     fn cases(&self, tier: Tier) -> u64 {
         tier.pick(120, 3_000)
     }
